@@ -164,8 +164,6 @@ var evNames = []string{"START", "STOP", "RESET", "CONFIGURE"}
 // bookkeeping of what the core still associates with a task (decides whom a fault hits)
 type taskBook struct {
 	simTerminal []bool // the simulated task already sent a terminal status
-	execCleared []bool // HandleExecutorFailed cleared its executor id
-	agentClear  []bool // HandleAgentFailed cleared its agent id
 }
 
 type caseRun struct {
@@ -184,39 +182,51 @@ func (c *caseRun) taskId(i int) string {
 	return c.w.RosterTaskId(pathFor(c.in)(c.name, i))
 }
 
-// inject performs the fault and returns the task positions it hits in the core (the victims)
+// inject performs the fault and returns the task positions it hits in the core (the victims):
+// whom the core associates with the failed executor / agent is read from its roster beforehand
+// (one executor per accepted offer: the tasks of an environment on one host share it)
 func (c *caseRun) inject(f Fault) []int {
 	n := len(c.in.Tasks)
 	if f.V < 0 || f.V >= n {
 		return []int{}
 	}
 	tid := c.taskId(f.V)
+	byTid := map[string]int{}
+	for i := 0; i < n; i++ {
+		byTid[c.taskId(i)] = i
+	}
+	roster := c.w.Sim.Taskman.VerifRoster()
 	vs := []int{}
 	switch f.Kind {
 	case "failed", "lost", "killed":
-		if !c.book.simTerminal[f.V] && !c.book.execCleared[f.V] && !c.book.agentClear[f.V] {
-			vs = []int{f.V}
+		for _, r := range roster {
+			if r.TaskId == tid && r.Locked && !c.book.simTerminal[f.V] {
+				vs = []int{f.V}
+			}
 		}
 		c.w.Sim.FailTask(tid, mesosState[f.Kind])
 		c.book.simTerminal[f.V] = true
 	case "executor":
-		if !c.book.execCleared[f.V] {
-			vs = []int{f.V}
-		}
-		c.w.Sim.FailExecutor(c.w.AgentOf(tid), c.w.ExecutorOf(tid))
-		c.book.execCleared[f.V] = true
-	case "agent":
-		for i, t := range c.in.Tasks {
-			if t.Host == c.in.Tasks[f.V].Host && !c.book.agentClear[i] {
+		ex := c.w.ExecutorOf(tid)
+		for _, r := range roster {
+			if i, ok := byTid[r.TaskId]; ok && r.ExecutorId == ex && ex != "" {
 				vs = append(vs, i)
-				c.book.agentClear[i] = true
 			}
 		}
-		c.w.Sim.FailAgent(c.w.AgentOf(tid))
+		c.w.Sim.FailExecutor(c.w.AgentOf(tid), ex)
+	case "agent":
+		ag := c.w.AgentOf(tid)
+		for _, r := range roster {
+			if i, ok := byTid[r.TaskId]; ok && r.AgentId == ag && ag != "" {
+				vs = append(vs, i)
+			}
+		}
+		c.w.Sim.FailAgent(ag)
 	case "internal":
 		vs = []int{f.V}
 		c.w.Sim.DeviceEvent(tid, "TASK_INTERNAL_ERROR", nil)
 	}
+	sort.Ints(vs)
 	return vs
 }
 
@@ -308,7 +318,7 @@ func runCase(w *c0203.World, idx int, in Input) (obs []StepObs, wedged bool) {
 	name := fmt.Sprintf("x%d", idx)
 	n := len(in.Tasks)
 	c := &caseRun{w: w, in: in, name: name,
-		book: taskBook{make([]bool, n), make([]bool, n), make([]bool, n)}}
+		book: taskBook{make([]bool, n)}}
 	w.YAMLOf, w.PathOf = yamlFor(in), pathFor(in)
 	var calls []c0203.Call
 	probeId := map[string]string{}
@@ -577,7 +587,7 @@ func (g *genState) kill(f Fault) (critHit bool) {
 		return g.in.Tasks[f.V].Crit
 	}
 	for i, t := range g.in.Tasks {
-		if i == f.V || (f.Kind == "agent" && t.Host == g.in.Tasks[f.V].Host) {
+		if i == f.V || ((f.Kind == "agent" || f.Kind == "executor") && t.Host == g.in.Tasks[f.V].Host) {
 			g.alive[i] = false
 			if t.Crit {
 				critHit = true
